@@ -4,7 +4,7 @@
 import EasyMl.Spec.Fallible
 import EasyMl.Lemmas.Tensor
 
-namespace EasyMl
+namespace EasyMl.Fallible
 open EasyMl.Spec
 
 set_option linter.unusedSectionVars false
@@ -811,4 +811,4 @@ theorem maskShape_ushape (shape : Shape ν) (hs : UShape shape) (rs : List Index
 theorem defaultMasks_length (masks : List (Option IndexRange)) :
     (defaultMasks masks).length = masks.length := by simp [defaultMasks]
 
-end EasyMl
+end EasyMl.Fallible
